@@ -232,7 +232,8 @@ class State:
 
 
 class ReaderHarness:
-    def __init__(self, kind, data, cuts, chunk, declared, delims, rep, cy_cls=None, nested=1):
+    def __init__(self, kind, data, cuts, chunk, declared, delims, rep, cy_cls=None, nested=1, mode=None):
+        self.mode = mode
         self.kind = kind            # 'sync' | 'async'
         self.data = data
         self.cuts = cuts            # sync: cut positions; async: chunk list
@@ -247,9 +248,17 @@ class ReaderHarness:
 
     def cfg(self):
         return {'kind': self.kind, 'data': self.data, 'cuts': list(self.cuts), 'chunk': self.chunk,
-                'declared': self.declared, 'delims': list(self.delims), 'nested': self.nested}
+                'declared': self.declared, 'delims': list(self.delims), 'nested': self.nested, 'mode': self.mode}
 
     def _build_ops(self):
+        if self.mode == 'd3':
+            # focused alphabet for delimiters of length 3 (look-alike prefixes straddling a chunk edge)
+            ops = [('read', 1), ('read', 2), ('read', 3), ('read', -1), ('peek', 1), ('peek', -1), ('exhaust',)]
+            for d in self.delims:
+                ops += [('read_until', d, -1, False), ('read_until', d, 1, False), ('read_until', d, 2, False),
+                        ('read_until', d, 3, False), ('read_until', d, -1, True), ('pipe_until', d, False), ('delimit', d)]
+            ops.append(('pop',))
+            return ops
         ops = [('read', 1), ('read', 2), ('read', -1), ('read', 0), ('read', None),
                ('peek', 1), ('peek', 2), ('peek', -1), ('exhaust',), ('pipe',)]
         for d in self.delims:
@@ -516,12 +525,12 @@ def gen_configs(tier, seed):
     alld = [b'a', b'ab', b'\n', b'aa']
     cfgs = []
     if tier == 'quick':
-        sync_plan = [(n, sym4, 2, (1, 2, 3), None) for n in range(0, 4)] + [(4, sym3, 1, (2, 3), 'two')]
-        async_plan = [(n, sym4, (1, 2, 3)) for n in range(0, 3)] + [(3, sym3, (1, 2, 3))]
+        sync_plan = [(n, sym4, 2, (1, 2, 3), None) for n in range(0, 3)] + [(3, sym3, 2, (1, 2, 3), None)]
+        async_plan = [(n, sym4, (1, 2, 3)) for n in range(0, 3)] + [(3, sym3, (2, 3))]
     else:
-        sync_plan = [(n, sym4, 2, (1, 2, 3), None) for n in range(0, 5)] + [(5, sym3, 2, (2, 3), 'two'),
-                                                                          (6, [b'a', b'b'], 2, (2, 3), 'one')]
-        async_plan = [(n, sym4, (1, 2, 3)) for n in range(0, 4)] + [(4, sym3, (1, 2, 3)), (5, [b'a', b'b'], (2, 3))]
+        sync_plan = [(n, sym4, 2, (1, 2, 3), None) for n in range(0, 4)] + [(4, sym3, 2, (1, 2, 3), None),
+                                                                          (5, [b'a', b'\n'], 1, (2, 3), 'one')]
+        async_plan = [(n, sym4, (1, 2, 3)) for n in range(0, 4)] + [(4, sym3, (2, 3))]
     for n, sym, maxcuts, chunks, decl_mode in sync_plan:
         for tup in itertools.product(sym, repeat=n):
             data = b''.join(tup)
@@ -551,15 +560,39 @@ def gen_configs(tier, seed):
             for ch in sorted(shapes):
                 for chunk in chunksz:
                     cfgs.append(('async', data, ch, chunk, len(data)))
+    # 3-byte delimiters: two symbols, chunk sizes 3 and 4, reduced operation alphabet (mode 'd3')
+    # (the shortest witness of a consumed look-alike prefix straddling the edge of a 3-byte sync chunk,
+    #  with the source not yet at EOF, needs 7 bytes)
+    for n in range(3, 8):
+        for tup in itertools.product([b'a', b'b'], repeat=n):
+            data = b''.join(tup)
+            for cuts in compositions(n):
+                if tier == 'quick':
+                    maxcuts = 2 if n <= 4 else (1 if n == 5 else 0)
+                else:
+                    maxcuts = 2 if n <= 6 else 1
+                if len(cuts) > maxcuts:
+                    continue
+                for chunk in (3, 4):
+                    if n >= 6 and chunk == 4 and tier == 'quick':
+                        continue
+                    cfgs.append(('sync', data, cuts, chunk, n, 'd3'))
+                    if n <= (5 if tier == 'quick' else 6):
+                        cfgs.append(('async', data, tuple(chunks_of(data, cuts)), chunk, n, 'd3'))
     return cfgs, alld
+
+
+D3_DELIMS = [b'aba', b'abb']
 
 
 def run_batch(batch, rep):
     cfgs, alld, nested = batch
-    for kind, data, cuts, chunk, declared in cfgs:
-        delims = [d for d in alld if len(d) <= chunk]
+    for cfg in cfgs:
+        kind, data, cuts, chunk, declared = cfg[:5]
+        mode = cfg[5] if len(cfg) > 5 else None
+        delims = D3_DELIMS if mode == 'd3' else [d for d in alld if len(d) <= chunk]
         h = ReaderHarness(kind, data, cuts, chunk, declared, delims, rep,
-                          nested=nested)
+                          nested=1 if mode == 'd3' else nested, mode=mode)
         before = rep.c['states']
         if rep.c['hangs'] >= 3:
             rep.cap('worker batch abandoned after 3 non-terminating operations')
@@ -576,9 +609,9 @@ def run_batch(batch, rep):
 def check(rep):
     cfgs, alld = gen_configs(rep.tier, rep.seed)
     nested = 1 if rep.tier == 'quick' else 2
-    rep.bounds = {'sync_max_len': '3 over 4 symbols + 4 over {a,b,LF}' if rep.tier == 'quick' else '4 over 4 symbols, 5 over 3, 6 over 2',
-                  'async_max_len': '2 over 4 symbols + 3 over 3' if rep.tier == 'quick' else '3 over 4 symbols, 4 over 3, 5 over 2',
-                  'configs': len(cfgs), 'chunk_sizes': [1, 2, 3], 'delimiters': alld, 'sync_cuts<=': 2, 'nesting': nested,
+    rep.bounds = {'sync_max_len': '2 over 4 symbols, 3 over {a,b,LF}' if rep.tier == 'quick' else '3 over 4 symbols, 4 over {a,b,LF}, 5 over {a,LF}',
+                  'async_max_len': '2 over 4 symbols + 3 over 3' if rep.tier == 'quick' else '3 over 4 symbols, 4 over {a,b,LF}',
+                  'configs': len(cfgs), 'chunk_sizes': [1, 2, 3], 'three_byte_delimiters': 'data <=%d over {a,b}, chunk sizes 3 and 4, delimiters aba/abb, 15-operation alphabet' % 7, 'delimiters': alld, 'sync_cuts<=': 2, 'nesting': nested,
                   'history_length': 'unbounded (closure of the reachable state graph per configuration)'}
     rep.rule = ('one BFS to closure per configuration (data x source chunking x chunk_size x declared length); '
                 'a state is the complete attribute/generator-frame state of the real reader(s) plus the cursor; '
@@ -599,7 +632,7 @@ def replay(rec):
     cuts = [bytes(c) if isinstance(c, (bytes, bytearray)) else c for c in cfg['cuts']]
     if True:
         h = ReaderHarness(cfg['kind'], cfg['data'], tuple(cuts), cfg['chunk'], cfg['declared'], cfg['delims'], rep,
-                          nested=cfg.get('nested', 1))
+                          nested=cfg.get('nested', 1), mode=cfg.get('mode'))
     s = h.fresh()
 
     def tup(o):
